@@ -34,6 +34,9 @@ PAIRS = [
     ("ft", "inch", Fraction(12), Fraction(0)),
     ("degC", "K", Fraction(1), Fraction(-27315, 100)),
     ("m", "m", Fraction(1), Fraction(0)),
+    # the SI <-> Gaussian electromagnetic route (a separate branch of in_units / convert_to_units)
+    ("T", "G", Fraction(10000), Fraction(0)),
+    ("G", "T", Fraction(1, 10000), Fraction(0)),
 ]
 BASE_PAIRS = {  # routes without an explicit target: unit -> (target name, factor)
     "in_base": {"km": ("m", Fraction(1000)), "m": ("m", Fraction(1)), "mile": ("m", Fraction(1609344, 1000)), "ft": ("m", Fraction(3048, 10000)), "degC": None},
@@ -550,10 +553,71 @@ def part_binary(ctx, shard):
                         ctx.violation(base + "|mode=target-differs-from-result", case, flat.tolist(), tgt.reshape(-1).tolist())
 
 
+# ---- lists of quantities in mixed units ---------------------------------------------------------------------------------
+LIST_PAIRS = [("km", "m", Fraction(1, 1000)), ("m", "km", Fraction(1000)), ("ft", "inch", Fraction(1, 12)), ("hr", "s", Fraction(1, 3600))]
+
+
+def part_lists(ctx, shard):
+    """a list / tuple of integer quantities in different commensurable units, coerced by the constructor or taken as an
+    operand: the converted values are kept (floats of that item size), never cut back to integers."""
+    world.reset_world()
+    for dt in shard:
+        d = np.dtype(dt)
+        tdt = target_dtype(dt) if d.kind in "iu" else d
+        for (u0, u1, f1), order, cont in itertools.product(LIST_PAIRS, ("first-unit-first", "other-unit-first"), (list, tuple)):
+            vals = [3, 500, 2, 1500, 7] if d.itemsize > 1 else [3, 50, 2, 15, 7]
+            units = [u0, u1, u0, u1, u1] if order == "first-unit-first" else [u1, u0, u1, u0, u0]
+            first = units[0]
+            seq = cont(unyt_quantity(np.array(v, dtype=dt)[()], u) for v, u in zip(vals, units))
+            # exact values in the first element's unit
+            conv = {u0: Fraction(1), u1: f1} if first == u0 else {u1: Fraction(1), u0: 1 / f1}
+            want = [Fraction(v) * conv[u] for v, u in zip(vals, units)]
+            anchor = unyt_array(np.array([1, 1, 1, 1, 1], dtype=dt), first)
+            calls = {
+                "constructor": (lambda: unyt_array(seq), want),
+                "add-right": (lambda: anchor + seq, [w + 1 for w in want]),
+                "add-left": (lambda: seq + anchor, [w + 1 for w in want]),
+                "np.add": (lambda: np.add(anchor, seq), [w + 1 for w in want]),
+                "subtract": (lambda: anchor - seq, [1 - w for w in want]),
+                "maximum": (lambda: np.maximum(anchor, seq), [max(w, Fraction(1)) for w in want]),
+            }
+            for cname, (f, wv) in calls.items():
+                ctx.count("evaluations")
+                st, r, _w = run_call(f)
+                case = {"part": "lists", "dtype": dt, "units": [u0, u1], "order": order, "container": cont.__name__, "call": cname}
+                base = f"C17|lists|call={cname}|dtype={kcls(dt)}|container={cont.__name__}"
+                ctx.outcome(("lists", cname, dt, st))
+                if st == "raise":
+                    ctx.count("list_operand_refused")
+                    continue
+                if not isinstance(r, unyt_array):
+                    ctx.count("list_result_not_a_quantity")
+                    continue
+                ctx.decided(("lists", dt, u0, u1, order, cont.__name__, cname))
+                got = np.asarray(r.d)
+                # the result may be labelled with either unit: read it back in the first element's unit, exactly
+                ru = str(r.units)
+                scale = Fraction(1) if ru == first else (conv[ru] if ru in conv else None)
+                if scale is None:
+                    ctx.count("list_result_in_third_unit")
+                    continue
+                if d.kind in "iu" and got.dtype.kind in "iu" and any((w / scale).denominator != 1 for w in wv):
+                    ctx.violation(base + "|mode=integer-result-for-fractional-values", case, [float(w / scale) for w in wv], got.tolist())
+                    continue
+                if not np.all(np.isfinite(got.astype(complex))) or any(abs(w / scale) > Fraction(float(np.finfo(tdt).max)) for w in wv if np.dtype(tdt).kind == "f"):
+                    ctx.count("list_values_overflow_the_narrow_float")
+                    continue
+                gv = [Fraction(float(x)) * scale for x in got.reshape(-1)]
+                eps = Fraction(float(np.finfo(tdt if np.dtype(tdt).kind == "f" else np.float64).eps))
+                if len(gv) != len(wv) or any(abs(g - w) > 8 * eps * max(abs(w), Fraction(1, 1000)) for g, w in zip(gv, wv)):
+                    ctx.violation(base + "|mode=values-not-converted", case, [float(w) for w in wv], [float(g) for g in gv])
+
+
 def run(ctx):
     harness.pmap(ctx, part_convert, [[d] for d in ALL_DT])
     pairs = list(itertools.product(ALL_DT, ALL_DT))
     harness.pmap(ctx, part_binary, [pairs[i::32] for i in range(32)])
+    harness.pmap(ctx, part_lists, [[d] for d in INT_DT + ["float32", "float64"]])
     return {
         "coverage": {
             "rule": "convert: dtype x route x unit pair x value group (each value alone as a scalar, all values as an array and as a "
@@ -565,6 +629,7 @@ def run(ctx):
             "unit_pairs": [f"{a}->{b}" for a, b, _, _ in PAIRS],
             "value_alphabet": {d: [str(v) for v in value_alphabet(d)] for d in ALL_DT},
             "binary_ops": list(BIN),
+            "lists": "dtype x 4 unit pairs x element order x {list, tuple} x {constructor, add (both sides, ufunc), subtract, maximum}",
         },
         "assumptions": [
             "expected float type for integer input: float of the same item size, float16 for 8-bit integers; in-place routes on 8-bit integers may refuse",
@@ -579,6 +644,8 @@ def replay(case):
     ctx = harness.Ctx(PROPERTY, "quick", 0)
     if case.get("part") == "binary":
         part_binary(ctx, [(case["dt0"], case["dt1"])])
+    elif case.get("part") == "lists":
+        part_lists(ctx, [case["dtype"]])
     else:
         part_convert(ctx, [case["dtype"]])
     return list(ctx.violations.items())
